@@ -289,11 +289,10 @@ impl RenetServer {
         }
         client.disconnect();
 
-        if self.connections.remove(&client_id).is_some() {
-            self.events.push_back(ServerEvent::ClientDisconnected {
-                client_id,
-                reason: DisconnectReason::DisconnectedByClient,
-            });
+        if let Some(connection) = self.connections.remove(&client_id) {
+            // If the server connection was already disconnected, report the reason it was first disconnected with
+            let reason = connection.disconnect_reason().unwrap_or(DisconnectReason::DisconnectedByClient);
+            self.events.push_back(ServerEvent::ClientDisconnected { client_id, reason });
         }
     }
 
